@@ -118,6 +118,19 @@ fn show_key(j: &Jwk) -> (String, Option<String>) {
       fail = Some(format!("thumbprint-not-rfc7638:{} expected {}", got, want));
     }
   }
+  // the three thumbprint functions are one value: base64url(SHA-256(hash input)), whatever the optional members say
+  if fail.is_none() {
+    let a = j.thumbprint_sha256_b64();
+    let b = identity_jose::jwu::encode_b64(j.thumbprint_sha256());
+    let mut bare = j.clone();
+    bare.set_kid("");
+    let mut other = j.clone();
+    other.set_kid("AAAAAAAAAAAAAAAAAAAAAAAAAAAAAAAAAAAAAAAAAAA");
+    other.set_alg("none");
+    if a != b || a != bare.thumbprint_sha256_b64() || a != other.thumbprint_sha256_b64() || j.thumbprint_hash_input() != other.thumbprint_hash_input() {
+      fail = Some(format!("thumbprint-depends-on-optional-members:thumbprint_sha256_b64 {} / thumbprint_sha256 {} / with another kid {}", a, b, other.thumbprint_sha256_b64()));
+    }
+  }
   let proj = match j.to_public() {
     None => "none".to_string(),
     Some(p) => {
@@ -260,13 +273,13 @@ pub fn run(args: &[&str]) -> String {
           let (obs, mut f) = show_key(&j);
           // member order must not matter
           if let Ok(j0) = Jwk::from_json(&json_of(kty, &ms, &os, 0)) {
-            if j0.thumbprint_hash_input() != j.thumbprint_hash_input() && f.is_none() {
+            if (j0.thumbprint_hash_input() != j.thumbprint_hash_input() || j0.thumbprint_sha256_b64() != j.thumbprint_sha256_b64()) && f.is_none() {
               f = Some("thumbprint-depends-on-member-order:".into());
             }
           }
           // optional members must not matter
           if let Ok(j1) = Jwk::from_json(&json_of(kty, &ms, &[], perm)) {
-            if j1.thumbprint_hash_input() != j.thumbprint_hash_input() && f.is_none() {
+            if (j1.thumbprint_hash_input() != j.thumbprint_hash_input() || j1.thumbprint_sha256_b64() != j.thumbprint_sha256_b64()) && f.is_none() {
               f = Some("thumbprint-depends-on-optional-members:".into());
             }
           }
@@ -298,9 +311,24 @@ pub fn run(args: &[&str]) -> String {
       let (Some(ms), Some(k1)) = (pairs(ms), kty_of(k1)) else { return "bad-request".into() };
       let Some(p) = params_of(fam, &ms) else { return "bad-request".into() };
       let mut j = Jwk::new(k1);
-      match j.set_params(p) {
+      let before = j.clone();
+      match j.set_params(p.clone()) {
         Ok(()) => with(show_key(&j)),
-        Err(_) => "err".into(),
+        Err(_) => {
+          // a refused setter leaves the key as it was, also when the key already carried parameters
+          let mut f = if j != before || j.kty() != j.params().kty() { Some("setter-error-changed-value:set_params refused the parameters but stored them".to_string()) } else { None };
+          for fam2 in [JwkType::Ec, JwkType::Rsa, JwkType::Oct, JwkType::Okp] {
+            let mut full = Jwk::new(fam2);
+            if let Some(own) = params_of(kty_name(fam2), &[("crv".into(), "c".into()), ("x".into(), "x".into()), ("y".into(), "y".into()), ("n".into(), "n".into()), ("e".into(), "e".into()), ("k".into(), "k".into())]) {
+              let _ = full.set_params(own);
+            }
+            let b2 = full.clone();
+            if full.set_params(p.clone()).is_err() && (full != b2 || full.kty() != full.params().kty()) && f.is_none() {
+              f = Some(format!("setter-error-changed-value:set_params on a {} key refused the parameters but stored them", kty_name(fam2)));
+            }
+          }
+          with(("err".into(), f))
+        }
       }
     }
     ["method", fam, ms] => {
@@ -309,13 +337,48 @@ pub fn run(args: &[&str]) -> String {
       let j = Jwk::from_params(p);
       let f = fam_of(j.params());
       let has_private = ms.iter().any(|(k, _)| private_names(f).contains(&k.as_str()));
+      // the other constructors: the builder, the conversion from a did:jwk, the did:jwk document expansion, and
+      // deserialisation (a JSON document is not "built through the library's constructors", it is only walked)
+      let leaks = |js: &str| private_names(f).iter().any(|n| js.contains(&format!("\"{}\":", n)));
+      let mut extra: Option<String> = None;
+      {
+        use identity_verification::{MethodData, MethodType};
+        let did = CoreDID::parse("did:example:abc").unwrap();
+        let built = VerificationMethod::builder(Default::default())
+          .id(identity_did::DIDUrl::parse("did:example:abc#k").unwrap())
+          .controller(did.clone())
+          .type_(MethodType::JSON_WEB_KEY_2020)
+          .data(MethodData::PublicKeyJwk(j.clone()))
+          .build();
+        if let Ok(m) = &built {
+          if has_private || leaks(&m.to_json().unwrap_or_default()) {
+            extra = Some("method-carries-private-key:MethodBuilder::build".into());
+          }
+        } else if !has_private {
+          extra = Some("method-rejects-public-key:MethodBuilder::build".into());
+        }
+        if let Ok(enc) = identity_jose::jwu::encode_b64_json(&j) {
+          if let Ok(dj) = identity_did::DIDJwk::parse(&format!("did:jwk:{}", enc)) {
+            if let Ok(m) = VerificationMethod::try_from(dj.clone()) {
+              if (has_private || leaks(&m.to_json().unwrap_or_default())) && extra.is_none() {
+                extra = Some("method-carries-private-key:TryFrom<DIDJwk> for VerificationMethod".into());
+              }
+            }
+            if let Ok(doc) = identity_document::document::CoreDocument::expand_did_jwk(dj) {
+              if (has_private || leaks(&doc.to_json().unwrap_or_default())) && extra.is_none() {
+                extra = Some("method-carries-private-key:CoreDocument::expand_did_jwk".into());
+              }
+            }
+          }
+        }
+      }
       match VerificationMethod::new_from_jwk(CoreDID::parse("did:example:abc").unwrap(), j, Some("#k")) {
         Ok(m) => {
           let js = m.to_json().unwrap_or_default();
-          let leak = has_private || private_names(f).iter().any(|n| js.contains(&format!("\"{}\":", n)));
-          with(("ok".into(), if leak { Some("method-carries-private-key:".into()) } else { None }))
+          let leak = has_private || leaks(&js);
+          with(("ok".into(), if leak { Some("method-carries-private-key:".into()) } else { extra }))
         }
-        Err(_) => with(("err".into(), if !has_private { Some("method-rejects-public-key:".into()) } else { None })),
+        Err(_) => with(("err".into(), if !has_private { Some("method-rejects-public-key:".into()) } else { extra })),
       }
     }
     ["storage", n] => {
@@ -367,7 +430,7 @@ pub fn gen(thorough: bool, seed: u64, out: &mut impl Write) {
     ("oct", vec![("k", "kk")], vec![]),
     ("OKP", vec![("crv", "Ed25519"), ("x", "xx")], vec![("d", "secret")]),
   ];
-  let optsets = ["-", "kid=k1", "use=sig,alg=EdDSA,kid=k1", "ops=Sign", "ops=Verify+Sign", "ops=Encrypt+WrapKey+DeriveKey+ProofGeneration,kid=k", "ops="];
+  let optsets = ["-", "kid=k1", "kid=AAAAAAAAAAAAAAAAAAAAAAAAAAAAAAAAAAAAAAAAAAA", "kid=NzbLsXh8uDCcd-6MNwXF4W_7noWXFZAfHkxZsRGC9Xs,alg=ES256", "use=sig,alg=EdDSA,kid=k1", "ops=Sign", "ops=Verify+Sign", "ops=Encrypt+WrapKey+DeriveKey+ProofGeneration,kid=k", "ops="];
   for (fam, req, priv_) in &fams {
     // every subset of private members (RSA: 128), every declared kty, missing one required member
     let np = priv_.len();
